@@ -935,6 +935,48 @@ func (r *run) tokens(c int) []tok {
 	return ts
 }
 
+// tokensOf: tokens for a bridge call on chain c paid by user u (erc: with ERC-20 tokens, else with base coins): mostly
+// tokens the user holds, amounts boundary-biased against the holding; dup: the same token may appear twice (the
+// precompile and the claim take token ARRAYS; a Cosmos message takes sdk.Coins, which cannot)
+func (r *run) tokensOf(c, u int, erc, dup bool) []tok {
+	rng := r.rng
+	bal := func(g int) int {
+		if erc {
+			return r.ercBal(u, g)
+		}
+		return r.baseBal(u, g)
+	}
+	var cand []int
+	for _, g := range r.w.Groups {
+		if g.OnChain[c] && bal(g.G) > 0 {
+			cand = append(cand, g.G)
+		}
+	}
+	if len(cand) == 0 || rng.Intn(8) == 0 {
+		return r.tokens(c)
+	}
+	rng.Shuffle(len(cand), func(i, j int) { cand[i], cand[j] = cand[j], cand[i] })
+	n := 1
+	if len(cand) > 1 && rng.Intn(3) == 0 {
+		n = 2
+	}
+	cand = cand[:n]
+	sort.Slice(cand, func(i, j int) bool { return r.w.Groups[cand[i]].Base < r.w.Groups[cand[j]].Base })
+	var ts []tok
+	for _, g := range cand {
+		a := r.amount(bal(g))
+		if a > 40 {
+			a = 1 + rng.Intn(40)
+		}
+		ts = append(ts, tok{g, a})
+	}
+	if dup && rng.Intn(4) == 0 {
+		ts = append(ts, tok{ts[0].g, 1 + rng.Intn(5)})
+		r.out.Count("gen:tokens:same-token-twice")
+	}
+	return ts
+}
+
 func (r *run) baseBal(u, g int) int {
 	return int(r.w.S.App.BankKeeper.GetBalance(r.w.S.Ctx, r.w.Users[u].AccAddress(), r.w.Groups[g].Base).Amount.Int64())
 }
@@ -1244,7 +1286,8 @@ func (r *run) randomOp() {
 		r.randomSettle()
 	case k < 76:
 		c := rng.Intn(len(bx.Chains))
-		r.bcout(c, u, rng.Intn(bx.NUsers), r.tokens(c), rng.Intn(2) == 0)
+		pre := rng.Intn(2) == 0
+		r.bcout(c, u, rng.Intn(bx.NUsers), r.tokensOf(c, u, pre, pre), pre)
 	case k < 84:
 		calls := r.outCalls()
 		if len(calls) == 0 || rng.Intn(12) == 0 {
@@ -1255,7 +1298,13 @@ func (r *run) randomOp() {
 		r.bcresult(cr.c, cr.nonce, rng.Intn(3) == 0, &cr, rng.Intn(3) == 0)
 	case k < 89:
 		c := rng.Intn(len(bx.Chains))
-		r.bcin(c, u, rng.Intn(bx.NUsers), r.tokens(c), rng.Intn(3) == 0)
+		fail := rng.Intn(3) == 0
+		ts := r.tokens(c)
+		if !fail && rng.Intn(4) == 0 { // the claim carries token ARRAYS: the same token twice
+			ts = append(ts, tok{ts[0].g, 1 + rng.Intn(5)})
+			r.out.Count("gen:tokens:same-token-twice")
+		}
+		r.bcin(c, u, rng.Intn(bx.NUsers), ts, fail)
 	case k < 93:
 		g := rng.Intn(5)
 		r.ccoin(g, u, rng.Intn(bx.NUsers), r.amount(r.baseBal(u, g)))
